@@ -250,7 +250,8 @@ CHECKS["C12"] = dict(
           "(continuity). Tied to the code by running Model/Locate.lean's interp at Float against the values the real "
           "post-processors return. Decided on the real tools (electrostatics, heat, planar magnetics, smoothing off) by an "
           "exact rational oracle on the solution-file mesh: found <=> the point is in the closed meshed region; value = exact "
-          "barycentric interpolant; field = gradient / curl of it; material data = those of the block; over all ordered "
+          "barycentric interpolant; field = gradient / curl of it; flux density = field scaled by the block's material (D = eps E with "
+          "energy density D.E/2, F = k G, H = B/(mu mu0) with B.H/2 and the laminated permeability); material data = those of the block; over all ordered "
           "(previous hit, next element) pairs of small even/odd meshes and shuffled sequences of centroids, edge points, "
           "adversarial edge points (those a position-ordered side test loses in doubles), nodes, points ulps off nodes, "
           "near-boundary, hole and outside points."),
